@@ -256,12 +256,15 @@ class BlockTr:
         self.havoc = [re.sub(r"\s+", "", k) for k in item.get("havoc", [])]
         self.bool_leaves = set()
         self.n_fresh = {}
+        self.fresh_names = set()
         self.effect_arg = item.get("effect_arg", {})
 
     def fresh(self, nm):
         """leaf for the unknown value a variable has after an external call: nm_new, nm_new2, … (one per assignment)"""
         self.n_fresh[nm] = self.n_fresh.get(nm, 0) + 1
-        return nm + "_new" + ("" if self.n_fresh[nm] == 1 else str(self.n_fresh[nm]))
+        name = nm + "_new" + ("" if self.n_fresh[nm] == 1 else str(self.n_fresh[nm]))
+        self.fresh_names.add(name)
+        return name
 
     def name_of(self, target):
         return sanitize(ast.get_source_segment(self.src, target))
@@ -532,7 +535,10 @@ def extract_block(item):
     # dependence changed); a leaf that DISAPPEARED is left to the tie lemma as well; only a new named leaf = restructured
     # (the entry value of an OUTPUT variable appearing as a leaf = "the block now sometimes keeps the old value": likewise)
     outvars = {o["var"] for o in item["outputs"]}
-    named = [l for l in leaves if l not in bt.bool_leaves and (l not in outvars or l in item.get("leaves", []))]
+    # (an unknown value `v_new` — result of an external call or of an untranslatable statement — that an output did not
+    # depend on before: likewise)
+    named = [l for l in leaves if l not in bt.bool_leaves and (l not in outvars or l in item.get("leaves", []))
+             and (l not in bt.fresh_names or l in item.get("leaves", []))]
     if "leaves" in item and sorted(item["leaves"]) != named:
         if not set(named) <= set(item["leaves"]):
             raise Unsupported(f"{item['name']}: leaves {named} differ from expected {sorted(item['leaves'])}")
